@@ -250,7 +250,7 @@ Definition norm_post (C : fconst) (neg : bool) (o exp man : Z) (r : res (list Z)
     (2 ^ (mbits C + 7) - 1 <= man -> k = 0) /\
     let u := 2 ^ (exp - k + o) in
     let V := man * 2 ^ (exp + o) in
-    ( (r = Host 5 /\ (2 ^ (mbits C + 8) - 128) * 2 ^ (255 + o) <= V) \/
+    ( (r = Host 5 /\ 255 <= exp - k /\ (2 ^ (mbits C + 8) - 128 <= man * 2 ^ k \/ 256 <= exp - k)) \/
       (exists b, r = Ok b /\ buf_ok C b /\ f_exp b = 0 /\ exp - k <= 0 /\ V < 2 ^ (mbits C + 8) * 2 ^ o) \/
       (exists b, r = Ok b /\ buf_ok C b /\ 1 <= f_exp b <= 255 /\ f_neg C b = neg /\
          exp - k <= f_exp b <= exp - k + 1 /\
@@ -326,10 +326,7 @@ Proof.
     + (* carry into the next exponent *)
       apply Z.eqb_eq in Er. rewrite H2P in Er. fold P in Hres.
       destruct (Z.gtb_spec (exp - k + 1) 255) as [Hov|Hin].
-      * left. split; [exact Hres|].
-        assert (E : u = 2 ^ (exp - k - 255) * 2 ^ (255 + o)) by (unfold u; rewrite <- pow2_split by lia; f_equal; lia).
-        assert (1 <= 2 ^ (exp - k - 255)) by (pose proof (pow2_pos (exp - k - 255)); lia).
-        assert (0 < 2 ^ (255 + o)) by (apply pow2_pos; lia). nia.
+      * left. split; [exact Hres|]. split; [lia|]. left. fold M'. lia.
       * right. destruct (Z.leb_spec (exp - k + 1) 0) as [Hz|Hnz].
         -- left. assert (Hc : clamp0 (exp - k + 1) = 0) by (unfold clamp0; destruct (Z.leb_spec (exp - k + 1) 0); lia).
            rewrite Hc in *. exists (f_encode C neg 0 P). split; [exact Hres|].
@@ -345,11 +342,7 @@ Proof.
     + apply Z.eqb_neq in Er. rewrite H2P in Er.
       assert (Hr2 : P <= round_even8 M' < 2 * P) by lia.
       destruct (Z.gtb_spec (exp - k) 255) as [Hov|Hin].
-      * left. split; [exact Hres|].
-        assert (E : u = 2 ^ (exp - k - 256) * 2 ^ (256 + o)) by (unfold u; rewrite <- pow2_split by lia; f_equal; lia).
-        assert (1 <= 2 ^ (exp - k - 256)) by (pose proof (pow2_pos (exp - k - 256)); lia).
-        assert (E2 : 2 ^ (256 + o) = 2 * 2 ^ (255 + o)) by (replace (256 + o) with (255 + o + 1) by lia; apply pow2_S; lia).
-        assert (0 < 2 ^ (255 + o)) by (apply pow2_pos; lia). nia.
+      * left. split; [exact Hres|]. split; [lia|]. right. lia.
       * right. destruct (Z.leb_spec (exp - k) 0) as [Hz|Hnz].
         -- left. assert (Hc : clamp0 (exp - k) = 0) by (unfold clamp0; destruct (Z.leb_spec (exp - k) 0); lia).
            rewrite Hc in *. exists (f_encode C neg 0 (round_even8 M')). split; [exact Hres|].
@@ -366,11 +359,13 @@ Qed.
 
 (* ------------------------------------------------------------------------------------------------ *)
 (* from norm_post to the clauses of mag_post.
-   S is the factor between the scale of the exact result Nm / Dn and the offset scale of norm_post:
-   S * Dn = 2^(o + 8), so that  f_mag b * Dn * S = 256 * f_man b * 2^(f_exp b + o). *)
+   The exact result is Nm / Dn on the scale of f_mag; the triple handed to _normalise stands for
+   V = man * 2^(exp + o).  S and G > 0 are scale factors with  S * Dn = 2^(o + 8) * G,  so that
+   f_mag b * Dn * S = 256 * f_man b * 2^(f_exp b + o) * G :  "Nm * S" is compared with "V * G"
+   (G = 1 for + - *; for / the divisor is not a power of two and G = Dn). *)
 
-Lemma mag_scale C b o S Dn : fmt_ok C -> buf_ok C b -> 0 <= o -> S * Dn = 2 ^ (o + 8) -> f_zero b = false ->
-  f_mag C b * Dn * S = 256 * f_man C b * 2 ^ (f_exp b + o).
+Lemma mag_scale C b o S Dn G : fmt_ok C -> buf_ok C b -> 0 <= o -> S * Dn = 2 ^ (o + 8) * G -> f_zero b = false ->
+  f_mag C b * Dn * S = 256 * f_man C b * 2 ^ (f_exp b + o) * G.
 Proof.
   intros HC Hb Ho HS Hz. unfold f_mag. rewrite Hz.
   pose proof (f_exp_bound C b HC Hb).
@@ -385,29 +380,36 @@ Proof. intros HS. destruct strict; cbn [err_ok]; nia. Qed.
 Lemma err_ok_le strict x x' y y' : x' <= x -> y <= y' -> err_ok strict x y -> err_ok strict x' y'.
 Proof. destruct strict; cbn [err_ok]; lia. Qed.
 
+Lemma abs_tri a b c : Z.abs (a - c) <= Z.abs (a - b) + Z.abs (c - b).
+Proof. lia. Qed.
+
 (* error bound and zero clause *)
-Lemma norm_partA C strict w den Nm Dn neg o exp man r S :
-  fmt_ok C -> 0 <= o -> 0 < S -> 0 < Dn -> S * Dn = 2 ^ (o + 8) -> 0 < den -> 0 <= w ->
+Lemma norm_partA C strict w den Nm Dn neg o exp man r S G :
+  fmt_ok C -> 0 <= o -> 0 < S -> 0 < Dn -> 0 < G -> S * Dn = 2 ^ (o + 8) * G -> 0 < den -> 0 <= w ->
   norm_post C neg o exp man r ->
   (forall k, 0 <= k -> 2 ^ (mbits C + 7) - 1 <= man * 2 ^ k < 2 ^ (mbits C + 8) ->
      (2 ^ (mbits C + 7) - 1 <= man -> k = 0) -> 0 <= exp - k + o ->
-     err_ok strict (den * (Z.abs (Nm * S - man * 2 ^ (exp + o)) + 128 * 2 ^ (exp - k + o)))
-                   (w * 256 * 2 ^ (exp - k + o))) ->
-  (man * 2 ^ (exp + o) < 2 ^ (mbits C + 8) * 2 ^ o -> Nm * S < 2 ^ (mbits C + 8) * 2 ^ o) ->
+     err_ok strict (den * (Z.abs (Nm * S - man * 2 ^ (exp + o) * G) + 128 * 2 ^ (exp - k + o) * G))
+                   (w * 256 * 2 ^ (exp - k + o) * G)) ->
+  (forall k, 0 <= k -> 2 ^ (mbits C + 7) - 1 <= man * 2 ^ k < 2 ^ (mbits C + 8) ->
+     (2 ^ (mbits C + 7) - 1 <= man -> k = 0) -> exp - k <= 0 ->
+     man * 2 ^ (exp + o) < 2 ^ (mbits C + 8) * 2 ^ o -> Nm * S < 2 ^ (mbits C + 8) * 2 ^ o * G) ->
   forall b, r = Ok b ->
     buf_ok C b /\
     if f_zero b then Nm < 2 ^ mbits C * Dn
     else f_neg C b = neg /\ err_ok strict (den * Z.abs (f_mag C b * Dn - Nm)) (w * 2 ^ f_exp b * Dn).
 Proof.
-  intros HC Ho HS HDn HSD Hden Hw (k & Hk & Hrange & Hk0 & Hpost) Hclose Hzero b Hr. cbv zeta in Hpost.
+  intros HC Ho HS HDn HG HSD Hden Hw (k & Hk & Hrange & Hk0 & Hpost) Hclose Hzero b Hr. cbv zeta in Hpost.
   pose proof (mbits_ge C HC) as Hg.
   destruct Hpost as [(E & _)|[(b' & E & Hok & He0 & Hek & HV)|(b' & E & Hok & He & Hn & Hee & Herr)]];
     [congruence | |]; assert (b' = b) by congruence; subst b'.
   - split; [exact Hok|]. unfold f_zero. rewrite He0. cbn [Z.eqb].
-    specialize (Hzero HV).
-    assert (E8 : 2 ^ (mbits C + 8) * 2 ^ o = 2 ^ mbits C * Dn * S).
+    specialize (Hzero k Hk Hrange Hk0 Hek HV).
+    assert (E8 : 2 ^ (mbits C + 8) * 2 ^ o * G = 2 ^ mbits C * Dn * S).
     { replace (2 ^ mbits C * Dn * S) with (2 ^ mbits C * (S * Dn)) by lia. rewrite HSD.
-      rewrite <- !pow2_split by lia. f_equal. lia. }
+      replace (mbits C + 8) with (mbits C + 8 + 0) by lia.
+      replace (2 ^ mbits C * (2 ^ (o + 8) * G)) with (2 ^ mbits C * 2 ^ (o + 8) * G) by lia.
+      f_equal. rewrite <- !pow2_split by lia. f_equal. lia. }
     rewrite E8 in Hzero. nia.
   - split; [exact Hok|]. assert (Hz : f_zero b = false) by (unfold f_zero; lia). rewrite Hz.
     split; [exact Hn|].
@@ -416,36 +418,45 @@ Proof.
     set (u := 2 ^ (exp - k + o)) in *. assert (Hu : 0 < u) by (apply pow2_pos; lia).
     assert (Hue : u <= 2 ^ (f_exp b + o)) by (apply pow2_le; lia).
     apply (err_ok_scale strict _ _ S HS).
-    pose proof (mag_scale C b o S Dn HC Hok Ho HSD Hz) as HR.
+    pose proof (mag_scale C b o S Dn G HC Hok Ho HSD Hz) as HR.
     set (R := 256 * f_man C b * 2 ^ (f_exp b + o)) in *.
     set (V := man * 2 ^ (exp + o)) in *.
     eapply err_ok_le; [| |exact Hclose].
-    + replace (den * Z.abs (f_mag C b * Dn - Nm) * S) with (den * Z.abs (f_mag C b * Dn * S - Nm * S)) by nia.
-      rewrite HR. nia.
+    + assert (EA : Z.abs (f_mag C b * Dn * S - Nm * S) = Z.abs (f_mag C b * Dn - Nm) * S).
+      { replace (f_mag C b * Dn * S - Nm * S) with ((f_mag C b * Dn - Nm) * S) by lia.
+        rewrite Z.abs_mul, (Z.abs_eq S) by lia. reflexivity. }
+      replace (den * Z.abs (f_mag C b * Dn - Nm) * S) with (den * Z.abs (f_mag C b * Dn * S - Nm * S)) by (rewrite EA; lia).
+      rewrite HR.
+      assert (Z.abs (R * G - V * G) <= 128 * u * G).
+      { replace (R * G - V * G) with ((R - V) * G) by lia. rewrite Z.abs_mul, (Z.abs_eq G) by lia. nia. }
+      pose proof (abs_tri (R * G) (V * G) (Nm * S)). nia.
     + replace (w * 2 ^ f_exp b * Dn * S) with (w * 2 ^ f_exp b * (S * Dn)) by lia. rewrite HSD.
       replace (o + 8) with (8 + o) by lia. rewrite (pow2_split 8 o) by lia. change (2 ^ 8) with 256.
       pose proof (f_exp_bound C b HC Hok).
       rewrite (pow2_split (f_exp b) o) in Hue by lia.
-      assert (0 < 2 ^ o) by (apply pow2_pos; lia). nia.
+      assert (0 < 2 ^ o) by (apply pow2_pos; lia).
+      assert (w * 256 * u * G <= w * 256 * (2 ^ f_exp b * 2 ^ o) * G) by nia. lia.
 Qed.
 
 (* Overflow clauses *)
-Lemma norm_partBC C Nm Dn neg o exp man r S :
-  fmt_ok C -> 0 <= o -> 0 < S -> 0 < Dn -> S * Dn = 2 ^ (o + 8) -> 0 < exp ->
+Lemma norm_partBC C Nm Dn neg o exp man r S G :
+  fmt_ok C -> 0 <= o -> 0 < S -> 0 < Dn -> 0 < G -> S * Dn = 2 ^ (o + 8) * G -> 0 < exp ->
   norm_post C neg o exp man r ->
-  man * 2 ^ (exp + o) - Nm * S < 128 * 2 ^ (255 + o) ->
   (forall k, 0 <= k -> 2 ^ (mbits C + 7) - 1 <= man * 2 ^ k < 2 ^ (mbits C + 8) ->
      (2 ^ (mbits C + 7) - 1 <= man -> k = 0) ->
-     (Nm * S - man * 2 ^ (exp + o)) * 2 ^ k < 128 * 2 ^ (exp + o)) ->
+     (man * 2 ^ (exp + o) * G - Nm * S) * 2 ^ k < 127 * 2 ^ (exp + o) * G) ->
+  (forall k, 0 <= k -> 2 ^ (mbits C + 7) - 1 <= man * 2 ^ k < 2 ^ (mbits C + 8) ->
+     (2 ^ (mbits C + 7) - 1 <= man -> k = 0) ->
+     (Nm * S - man * 2 ^ (exp + o) * G) * 2 ^ k < 128 * 2 ^ (exp + o) * G) ->
   (match r return Prop with
    | Host x => x = 5 /\ (2 ^ mbits C - 1) * 2 ^ 255 * Dn < Nm
    | Ok _ => True
    | _ => False
    end) /\ (2 ^ mbits C * 2 ^ 255 * Dn <= Nm -> r = Host 5).
 Proof.
-  intros HC Ho HS HDn HSD Hexp (k & Hk & Hrange & Hk0 & Hpost) HB HCc. cbv zeta in Hpost.
+  intros HC Ho HS HDn HG HSD Hexp (k & Hk & Hrange & Hk0 & Hpost) HB HCc. cbv zeta in Hpost.
   pose proof (mbits_ge C HC) as Hg. pose proof (mbits_le C HC) as Hl.
-  specialize (HCc k Hk Hrange Hk0).
+  specialize (HCc k Hk Hrange Hk0). specialize (HB k Hk Hrange Hk0).
   set (V := man * 2 ^ (exp + o)) in *.
   assert (Ho8 : 2 ^ (o + 8) = 256 * 2 ^ o) by (replace (o + 8) with (8 + o) by lia; rewrite pow2_split by lia; reflexivity).
   assert (H2o : 0 < 2 ^ o) by (apply pow2_pos; lia).
@@ -453,20 +464,47 @@ Proof.
   assert (Hp255 : 0 < 2 ^ 255) by (apply pow2_pos; lia).
   assert (E8 : 2 ^ (mbits C + 8) = 256 * 2 ^ mbits C) by (replace (mbits C + 8) with (8 + mbits C) by lia; rewrite pow2_split by lia; reflexivity).
   assert (Hpm : 0 < 2 ^ mbits C) by (apply pow2_pos; lia).
+  assert (H2k : 0 < 2 ^ k) by (apply pow2_pos; lia).
+  assert (Hpe : 0 < 2 ^ (exp + o)) by (apply pow2_pos; lia).
   destruct Hpost as [(E & HV)|[(b & E & Hok & He0 & Hek & HV)|(b & E & Hok & He & Hn & Hee & Herr)]]; subst r.
-  - split; [|reflexivity]. split; [reflexivity|].
-    (* MAX * Dn * S = (2^(m+8) - 256) * 2^(255+o) < V - 128 * 2^(255+o) < Nm * S *)
-    assert (Hlt : (2 ^ mbits C - 1) * 2 ^ 255 * Dn * S < Nm * S).
-    { replace ((2 ^ mbits C - 1) * 2 ^ 255 * Dn * S) with ((2 ^ mbits C - 1) * 2 ^ 255 * (S * Dn)) by lia.
-      rewrite HSD, Ho8. rewrite E8, E255 in HV. rewrite E255 in HB. nia. }
+  - destruct HV as [He255 Hcase]. split; [|reflexivity]. split; [reflexivity|].
+    assert (Hpos : 0 <= exp - k + o) by lia.
+    set (u := 2 ^ (exp - k + o)) in *. assert (Hu : 0 < u) by (apply pow2_pos; lia).
+    assert (Eu : 2 ^ (exp + o) = 2 ^ k * u).
+    { unfold u. rewrite <- pow2_split by lia. f_equal. lia. }
+    set (M' := man * 2 ^ k) in *.
+    assert (HVG : V * G = M' * (u * G)) by (unfold V, M'; rewrite Eu; lia).
+    assert (Hd : V * G - Nm * S < 127 * (u * G)).
+    { rewrite Eu in HB. assert (0 < u * G) by nia.
+      apply (Z.mul_lt_mono_pos_r (2 ^ k)); [exact H2k|]. lia. }
+    assert (Hlt : (2 ^ mbits C - 1) * 2 ^ 255 * (S * Dn) < Nm * S).
+    { rewrite HSD, Ho8. rewrite E8 in Hrange, Hcase.
+      assert (Hlo : (M' - 127) * (u * G) < Nm * S) by lia.
+      destruct Hcase as [Hc|Hc].
+      - assert (Hu255 : 2 ^ (255 + o) <= u) by (apply pow2_le; lia). rewrite E255 in Hu255.
+        assert ((256 * 2 ^ mbits C - 255) * (2 ^ 255 * 2 ^ o * G) <= (M' - 127) * (u * G)).
+        { assert (2 ^ 255 * 2 ^ o * G <= u * G) by nia.
+          assert (0 < 2 ^ 255 * 2 ^ o * G) by nia.
+          assert (256 * 2 ^ mbits C - 255 <= M' - 127) by lia. nia. }
+        nia.
+      - assert (Hu256 : 2 ^ (256 + o) <= u) by (apply pow2_le; lia).
+        assert (E256 : 2 ^ (256 + o) = 2 * (2 ^ 255 * 2 ^ o)).
+        { replace (256 + o) with (255 + o + 1) by lia. rewrite pow2_S by lia. rewrite E255. reflexivity. }
+        rewrite E256 in Hu256.
+        assert ((128 * 2 ^ mbits C - 128) * (2 * (2 ^ 255 * 2 ^ o) * G) <= (M' - 127) * (u * G)).
+        { assert (2 * (2 ^ 255 * 2 ^ o) * G <= u * G) by nia.
+          assert (0 < 2 * (2 ^ 255 * 2 ^ o) * G) by nia.
+          assert (E7 : 2 ^ (mbits C + 7) = 128 * 2 ^ mbits C).
+          { replace (mbits C + 7) with (7 + mbits C) by lia. rewrite pow2_split by lia. reflexivity. }
+          assert (128 * 2 ^ mbits C - 128 <= M' - 127) by lia. nia. }
+        nia. }
+    replace ((2 ^ mbits C - 1) * 2 ^ 255 * (S * Dn)) with ((2 ^ mbits C - 1) * 2 ^ 255 * Dn * S) in Hlt by lia.
     nia.
   - split; [exact I|]. intros Hbig. exfalso.
     assert (Hbig' : 2 ^ mbits C * 2 ^ 255 * (S * Dn) <= Nm * S) by nia.
     rewrite HSD, Ho8 in Hbig'. rewrite E8 in HV.
-    (* 2^(exp+o) <= 2^k * 2^o *)
     assert (Hle : 2 ^ (exp + o) <= 2 ^ k * 2 ^ o) by (rewrite <- pow2_split by lia; apply pow2_le; lia).
-    assert (0 < 2 ^ k) by (apply pow2_pos; lia).
-    assert (Nm * S - V < 128 * 2 ^ o) by nia.
+    assert (Nm * S - V * G < 128 * 2 ^ o * G) by nia.
     assert (2 <= 2 ^ 255) by (change 2 with (2 ^ 1) at 1; apply pow2_le; lia).
     nia.
   - split; [exact I|]. intros Hbig. exfalso.
@@ -476,13 +514,47 @@ Proof.
     set (u := 2 ^ (exp - k + o)) in *. assert (Hu : 0 < u) by (apply pow2_pos; lia).
     assert (Eu : 2 ^ (exp + o) = 2 ^ k * u).
     { unfold u. rewrite <- pow2_split by lia. f_equal. lia. }
-    assert (0 < 2 ^ k) by (apply pow2_pos; lia).
-    assert (Hd : Nm * S - V < 128 * u) by (rewrite Eu in HCc; nia).
+    assert (Hd : Nm * S - V * G < 128 * u * G) by (rewrite Eu in HCc; nia).
     assert (Hue : u <= 2 ^ (f_exp b + o)) by (apply pow2_le; lia).
     assert (Hee2 : 2 ^ (f_exp b + o) <= 2 ^ (255 + o)) by (apply pow2_le; lia).
     pose proof (f_man_bound C b HC) as Hfm.
     set (R := 256 * f_man C b * 2 ^ (f_exp b + o)) in *.
     assert (0 < 2 ^ (f_exp b + o)) by (apply pow2_pos; lia).
     assert (HR : R <= (256 * 2 ^ mbits C - 256) * 2 ^ (f_exp b + o)) by (unfold R; nia).
-    rewrite E255 in Hee2. nia.
+    rewrite E255 in Hee2.
+    assert (HVR : V * G <= R * G + 128 * u * G) by nia.
+    assert (Nm * S < (256 * 2 ^ mbits C - 256) * 2 ^ (f_exp b + o) * G + 256 * u * G) by nia.
+    assert (256 * u * G <= 256 * 2 ^ (f_exp b + o) * G) by nia.
+    assert ((256 * 2 ^ mbits C) * 2 ^ (f_exp b + o) * G <= (256 * 2 ^ mbits C) * (2 ^ 255 * 2 ^ o) * G) by nia.
+    nia.
+Qed.
+
+(* ------------------------------------------------------------------------------------------------ *)
+(* _normalise overwrites the whole buffer: the result does not depend on the old contents *)
+
+Lemma loop3_buf_indep f C buf buf' neg : forall exp man,
+  mbf_normalise_loop_3 f C buf neg exp man = mbf_normalise_loop_3 f C buf' neg exp man.
+Proof.
+  induction f as [|f IH]; intros exp man; [reflexivity|].
+  rewrite !loop3_S. destruct (man <? c_den_mask C - 1); [apply IH | reflexivity].
+Qed.
+
+Lemma pack_buf_indep n buf buf' x : zlen buf = n -> zlen buf' = n ->
+  pack_into_le n buf x = pack_into_le n buf' x.
+Proof.
+  intros H1 H2. unfold pack_into_le. rewrite H1, H2.
+  rewrite !skipn_all2 by (unfold zlen in *; lia). reflexivity.
+Qed.
+
+Lemma normalise_buf_indep C buf buf' exp man neg : fmt_ok C -> zlen buf = c_size C -> zlen buf' = c_size C ->
+  mbf_normalise C buf exp man neg = mbf_normalise C buf' exp man neg.
+Proof.
+  intros HC H1 H2. rewrite !normalise_unfold.
+  destruct ((man =? 0) || (exp <=? 0)); [reflexivity|].
+  rewrite (loop3_buf_indep 1000 C buf buf').
+  destruct (mbf_normalise_loop_3 1000 C buf' neg exp man) as [[e m]| | |]; cbn [bind]; try reflexivity.
+  unfold norm_tail. cbv zeta.
+  match goal with |- context [if ?c then _ else _] => destruct c end; cbn [bind]; cbv beta iota;
+    rewrite (pack_buf_indep (c_intsize C) buf buf') by (rewrite (ok_intsize C HC); assumption);
+    reflexivity.
 Qed.
